@@ -123,5 +123,7 @@ func CreateSpliceInsertPayload(p SpliceInsertParams) []byte {
 	cmd.SetIsOut(p.OutOfNetworkIndicator)
 	cmd.SetSpliceImmediate(p.SpliceImmediateFlag)
 	s.SetCommandInfo(cmd)
+	// Set the PTS on the signal as well: otherwise UpdateData writes a pts_adjustment that cancels pts_time.
+	s.SetPTS(gots.PTS(p.PtsTime))
 	return s.UpdateData()
 }
